@@ -144,7 +144,11 @@ func (nm LNumber) Format(f fmt.State, c rune) {
 	switch c {
 	case 'q', 's':
 		defaultFormat(nm.String(), f, c)
-	case 'b', 'c', 'd', 'o', 'x', 'X', 'U':
+	case 'c':
+		// C's %c writes the single byte (unsigned char)arg; fmt's %c would
+		// write the UTF-8 encoding of the code point
+		defaultFormat(string([]byte{byte(int64(nm))}), f, 's')
+	case 'b', 'd', 'o', 'x', 'X', 'U':
 		defaultFormat(int64(nm), f, c)
 	case 'e', 'E', 'f', 'F', 'g', 'G':
 		defaultFormat(float64(nm), f, c)
